@@ -60,11 +60,12 @@ const (
 	fNoHashText     // text + extension with a version but no hash: refused, registers nothing
 	fBlankTextHash  // white-space-only text + the hash of another text: refused (not a hash-only request)
 	fPaddedTextHash // text with leading/trailing white space + the hash of exactly those bytes: executes
+	fBadJSON        // a body that is not JSON (POST) / an extensions parameter that is not JSON (GET): refused
 	numForms
 )
 
 func (f form) String() string {
-	return [...]string{"text", "text+hash", "text+wrong-hash", "hash-only", "malformed-ext", "wrong-version", "unknown-hash-only", "no-hash", "no-version", "text+no-hash", "blank-text+hash", "padded-text+hash"}[f]
+	return [...]string{"text", "text+hash", "text+wrong-hash", "hash-only", "malformed-ext", "wrong-version", "unknown-hash-only", "no-hash", "no-version", "text+no-hash", "blank-text+hash", "padded-text+hash", "bad-json"}[f]
 }
 
 type op struct {
@@ -72,6 +73,9 @@ type op struct {
 	Text int // text sent (or whose hash is sent for hash-only)
 	Hash int // for text+wrong-hash: the text whose hash is sent
 	Get  bool
+	// Plain: the request goes to a second server that has NO persisted-query extension but shares
+	// the document cache with the first (text-carrying forms only): the extension is ignored there
+	Plain bool
 }
 
 func (o op) String() string { return fmt.Sprintf("%s(t%d,h%d,get=%v)", o.Form, o.Text, o.Hash, o.Get) }
@@ -151,12 +155,16 @@ func classify(body string, expected []string) outcome {
 
 // step is the sequential model: state is the set of registered texts (bitmask).
 func step(state int, o op, out outcome) (bool, int) {
+	if o.Plain {
+		// no persisted-query extension on that server: the text is executed, nothing is registered
+		return out.Kind == "exec" && out.Text == o.Text, state
+	}
 	switch o.Form {
 	case fTextOnly:
 		return out.Kind == "exec" && out.Text == o.Text, state
 	case fTextHash:
 		return out.Kind == "exec" && out.Text == o.Text, state | 1<<o.Text
-	case fTextWrongHash, fMalformed, fWrongVersion, fNoHashText, fBlankTextHash:
+	case fTextWrongHash, fMalformed, fWrongVersion, fNoHashText, fBlankTextHash, fBadJSON:
 		return out.Kind == "rejected", state
 	case fPaddedTextHash:
 		// registers the padded bytes under their own hash, which no other form asks for
@@ -240,8 +248,14 @@ func Run(rc *core.RunCtx) {
 	} else {
 		srv.Use(extension.AutomaticPersistedQuery{Cache: lru.New[string](1 + t.Choose(3, "lrusize"))})
 	}
+	// a second server without the extension, sharing the document cache (if any) with the first
+	srv2 := handler.New(u.ES)
+	srv2.AddTransport(transport.GET{})
+	srv2.AddTransport(transport.POST{})
 	if t.Bool(2, 3, "qcache") {
-		srv.SetQueryCache(lru.New[*graphqlDoc]([]int{2, 8}[t.Choose(2, "qcache-size")]))
+		qc := lru.New[*graphqlDoc]([]int{2, 8}[t.Choose(2, "qcache-size")])
+		srv.SetQueryCache(qc)
+		srv2.SetQueryCache(qc)
 	}
 	maxN := 10
 	if rc.Tier == "thorough" {
@@ -279,6 +293,9 @@ func Run(rc *core.RunCtx) {
 					break
 				}
 			}
+		}
+		if (o.Form == fTextOnly || o.Form == fTextHash || o.Form == fTextWrongHash) && t.Bool(1, 6, "plain-server") {
+			o.Plain = true
 		}
 		if o.Form == fBlankTextHash {
 			// the hash of a text registered earlier in the history, when there is one
@@ -353,17 +370,32 @@ func Run(rc *core.RunCtx) {
 					b, _ := json.Marshal(ext)
 					q.Set("extensions", string(b))
 				}
-				hr := httptest.NewRequest("GET", "/query?"+q.Encode(), nil).WithContext(ctx)
-				srv.ServeHTTP(rw, hr)
+				target := "/query?" + q.Encode()
+				if o.Form == fBadJSON {
+					target = "/query?query=" + url.QueryEscape(query) + "&extensions=%7Bnot-json"
+				}
+				hr := httptest.NewRequest("GET", target, nil).WithContext(ctx)
+				if o.Plain {
+					srv2.ServeHTTP(rw, hr)
+				} else {
+					srv.ServeHTTP(rw, hr)
+				}
 			} else {
 				m := map[string]any{"query": query}
 				if ext != nil {
 					m["extensions"] = ext
 				}
 				b, _ := json.Marshal(m)
+				if o.Form == fBadJSON {
+					b = b[:len(b)-1-o.Text%3] // cut off: not JSON
+				}
 				hr := httptest.NewRequest("POST", "/query", bytes.NewReader(b)).WithContext(ctx)
 				hr.Header.Set("Content-Type", "application/json")
-				srv.ServeHTTP(rw, hr)
+				if o.Plain {
+					srv2.ServeHTTP(rw, hr)
+				} else {
+					srv.ServeHTTP(rw, hr)
+				}
 			}
 			results[i] = classify(rw.Body.String(), expected)
 		}()
